@@ -26,6 +26,12 @@ BASE_CFG = {
     "n_tables": (1, 2),
     "final_order": 0.25,
     "ops": {"select_columns": 3, "drop_columns": 3, "project": 4, "natural_join": 4, "window": 3, "ordered_window": 3},
+    # shared interior nodes asked for different column subsets by two consumers; joins on differently named keys
+    "shape": "diamond",
+    "shape_prob": 0.4,
+    "reuse_bias": True,
+    "diffname_prob": 0.5,
+    "narrowing_tails": True,
 }
 
 FRESH = {"int": [7, -9, 11, 5], "float": [9.5, -7.25, 3.75, 8.0], "str": ["zz", "q9", "", "mm"], "bool": [True, False, False, True]}
